@@ -82,7 +82,14 @@ def IF(
     """
     # Use delayed evaluation to only evaluate the true or false value but not
     # both.
-    return value_if_true() if logical_test() else value_if_false()
+    test = logical_test()
+    if isinstance(test, xlerrors.ExcelError):
+        return test
+    branch = value_if_true if test else value_if_false
+    # An omitted branch is the plain default value, not an expression.
+    if isinstance(branch, func_xltypes.Expr):
+        return branch()
+    return branch
 
 
 @xl.register()
@@ -93,7 +100,10 @@ def NOT(logical: func_xltypes.XlExpr) -> func_xltypes.XlBoolean:
     https://support.microsoft.com/en-us/office/
         not-function-9cfc6011-a054-40c7-a140-cd4ba2d87d77
     """
-    return not bool(logical())
+    value = logical()
+    if isinstance(value, xlerrors.ExcelError):
+        raise value
+    return not bool(value)
 
 
 @xl.register()
